@@ -37,16 +37,18 @@ def _local_grid(kind, a, b, boundary):
     return G.BSplineGrid(a, b, boundary=boundary, p=kind[1])
 
 
-def _identity_function(pts):
+def _identity_function(pts, integer=False):
+    """all nodal unit functions as ONE vector-valued function; integer=True: the values are returned with an integer dtype (counts,
+    labels, indicator functions are legal vector-valued functions - the surpluses of such a function are not integers)"""
     from sparseSpACE.Function import CustomFunction
     index = {tuple(float(t) for t in p): i for i, p in enumerate(pts)}
     n = len(pts)
 
     def unit(x):
-        v = np.zeros(n)
+        v = np.zeros(n, dtype=int) if integer else np.zeros(n)
         i = index.get(tuple(float(t) for t in x))
         if i is not None:
-            v[i] = 1.0
+            v[i] = 1
         return v
     return CustomFunction(unit, output_length=n)
 
@@ -123,6 +125,12 @@ def _global_case(c):
     if not np.max(err) <= 1e-9:
         i, j = np.unravel_index(int(np.argmax(err)), err.shape)
         fails.append(fail("hierarchise_interpolate_identity", "unit function of %r at %r: %r" % (pts[j], pts[i], V[i, j]), key))
+    # the same identity with integer-typed function values
+    g.integrate(_identity_function(pts, integer=True), lv, np.array(a, dtype=float), np.array(b, dtype=float))
+    Vi = np.asarray(g.interpolate(pts, ComponentGridInfo(lv, 1)), dtype=float)
+    if not np.max(np.abs(Vi - np.eye(N))) <= 1e-9:
+        i, j = np.unravel_index(int(np.argmax(np.abs(Vi - np.eye(N)))), Vi.shape)
+        fails.append(fail("hierarchise_interpolate_identity", "integer-valued unit function of %r at %r: %r" % (pts[j], pts[i], Vi[i, j]), dict(key, value_dtype="int")))
     if d == 1:
         gauss = (g.coords_gauss, g.weights_gauss)
         _basis_checks(list(g.basis[0]), coords[0], a[0], b[0], key, fails, gauss)
